@@ -46,6 +46,13 @@ NStep(m0, r) ==
         IN  [m EXCEPT !.flags = f1 \o SeqFlags(m, r),
                       !.rets = @ \cup {Key(r.ret_seq)},
                       !.lastSeq = PutFn(@, r.g, r.ret_seq)]
+    ELSE IF r.k = "ssend" THEN
+        \* flags without REQUEST and ACK: the kernel handles nothing and acknowledges nothing
+        [m EXCEPT !.flags = (IF r.ret # "ok" THEN << Flag("Send failed on an open socket") >>
+                             ELSE IF r.answered THEN << Flag("the kernel answered a message whose flags ask for no answer: the flags on the wire are not the caller's") >>
+                             ELSE << >>) \o SeqFlags(m, r),
+                  !.rets = @ \cup {Key(r.ret_seq)},
+                  !.lastSeq = PutFn(@, r.g, r.ret_seq)]
     ELSE IF r.k = "csend" THEN
         \* a Send made concurrently with others; echoes are matched at "cend"
         [m EXCEPT !.flags = SeqFlags(m, r),
